@@ -56,6 +56,38 @@ func scenPerm(order []int, kinds []string, yieldSeed uint64) *connRun {
 	return e.finish("perm", map[string]interface{}{"order": order, "kinds": kinds, "yield": yieldSeed})
 }
 
+// many: n callers at once on one client, every handler waits until all n are running (so the server holds all n
+// requests before it answers any), then they are released newest first
+func scenMany(n int) *connRun {
+	e := newConnEnv(connOpts{})
+	toks := make([]int, n)
+	for i := 0; i < n; i++ {
+		e.hold(i + 1)
+	}
+	kinds := []string{"echo", "fail", "retry"}
+	for i := 0; i < n; i++ {
+		toks[i] = e.call(kinds[i%3], context.Background())
+	}
+	deadline := time.Now().Add(5 * time.Second)
+	started := 0
+	for time.Now().Before(deadline) {
+		started = countPoint(e, "h.start")
+		if started >= n {
+			break
+		}
+		time.Sleep(5 * time.Millisecond)
+	}
+	for i := n - 1; i >= 0; i-- {
+		e.release(toks[i])
+	}
+	all := e.waitCalls(5 * time.Second)
+	r := e.finish("perm", map[string]interface{}{"many": n, "handlers_running_before_any_release": started})
+	if r.Oracle == "" && (started < n || !all) {
+		r.Oracle = fmt.Sprintf("%d calls were issued concurrently on one client; only %d of their handlers were running 5s later and waiting for the rest (all returned before the close: %v)", n, started, all)
+	}
+	return r
+}
+
 // fault: one call in flight (A, held), a fault of a given kind at a given position, a call B inside the
 // reconnect window (held there by a gate on the redial), then recovery and a probe call C.
 // pos: "idle" (frame boundary), "mid-resp" (inside a large response frame, server->client),
@@ -406,6 +438,9 @@ func scenLoopEnds(kind faultKind, viaCtx bool) *connRun {
 // outage (C05): the link drops, the server is unreachable for k redials, then comes back; one retry-tagged and one
 // untagged call are in flight at the fault, one of each is issued during the outage; optionally a second fault right
 // after the reconnect. With noReconnect the client must never dial again.
+// the retry-tagged method used by scenOutage: "retry" (with a context parameter) or "retrync" (without one)
+var outageRetryKind = "retry"
+
 func scenOutage(kind faultKind, k int, errorsOn bool, noReconnect bool, secondFault bool) *connRun {
 	minB := 15 * time.Millisecond
 	e := newConnEnv(connOpts{errors: errorsOn, noReconnect: noReconnect, backoffMin: minB, backoffMax: 60 * time.Millisecond})
@@ -415,7 +450,8 @@ func scenOutage(kind faultKind, k int, errorsOn bool, noReconnect bool, secondFa
 	e.waitEv(2*time.Second, func(ev tev) bool { return ev.Point == "call.return" && fmt.Sprint(ev.Args[0]) == fmt.Sprint(w) })
 	e.hold(2)
 	e.hold(3)
-	a := e.call("retry", context.Background())
+	params["retry_kind"] = outageRetryKind
+	a := e.call(outageRetryKind, context.Background())
 	b := e.call("echo", context.Background())
 	e.waitEv(2*time.Second, evIs("h.start", a))
 	e.waitEv(2*time.Second, evIs("h.start", b))
@@ -436,7 +472,7 @@ func scenOutage(kind faultKind, k int, errorsOn bool, noReconnect bool, secondFa
 	}
 	// during the outage
 	e.waitEv(2*time.Second, evIs("reconn.begin", nil))
-	c1 := e.call("retry", context.Background())
+	c1 := e.call(outageRetryKind, context.Background())
 	c2 := e.call("echo", context.Background())
 	deadline := time.Now().Add(5 * time.Second)
 	for e.proxy.acceptCount() < base+k && time.Now().Before(deadline) {
@@ -469,7 +505,7 @@ func scenOutage(kind faultKind, k int, errorsOn bool, noReconnect bool, secondFa
 			if c.Token == p && c.Outcome != "ok" {
 				r.Oracle = fmt.Sprintf("after the link healed a new call still failed: %s", c.Outcome)
 			}
-			if c.Kind == "retry" && c.Outcome != "ok" {
+			if isRetryKind(c.Kind) && c.Outcome != "ok" {
 				r.Oracle = fmt.Sprintf("retry-tagged call %d did not ride out the outage: %s", c.Token, c.Outcome)
 			}
 			if c.Kind == "echo" && c.Outcome == "connerr" {
@@ -534,6 +570,10 @@ func connFamily(seed uint64, tier string, args []string) {
 				emit(scenPerm(p, []string{"echo", "fail", "retry"}, 0))
 			}
 		}
+		emit(scenMany(300))
+		if tier == "thorough" {
+			emit(scenMany(700))
+		}
 		k := 12
 		if tier == "thorough" {
 			k = 200
@@ -566,6 +606,10 @@ func connFamily(seed uint64, tier string, args []string) {
 		}
 		// a call without an error result in flight at the fault / issued in the window
 		emit(scenFault(faultFIN, "idle", "plain", "plain", true, true))
+		// a retry-tagged method without a context parameter in flight at the fault / issued in the window
+		emit(scenFault(faultFIN, "idle", "retrync", "retrync", true, true))
+		emit(scenFault(faultRST, "mid-resp", "retrync", "echo", true, false))
+		emit(scenFault(faultCloseFrame, "idle", "echo", "retrync", true, true))
 		emit(scenFault(faultRST, "mid-resp", "plain", "plain", true, false))
 		for _, k := range []faultKind{faultFIN, faultRST} {
 			emit(scenLoopEnds(k, false))
@@ -589,6 +633,11 @@ func connFamily(seed uint64, tier string, args []string) {
 			emit(scenOutage(k, 0, true, true, false))
 			emit(scenOutage(k, 0, false, true, false))
 		}
+		// the retry-tagged method has no context parameter
+		outageRetryKind = "retrync"
+		emit(scenOutage(faultFIN, 1, true, false, false))
+		emit(scenOutage(faultRST, 2, false, false, true))
+		outageRetryKind = "retry"
 	}
 	if which == "all" || which == "httpfault" {
 		emit(scenHTTPFault("fin"))
